@@ -276,7 +276,7 @@ PREDEF_PARAM_NAMES = ['ramp', 'setpoint', 'mode', 'use_ramp']
 
 def gen_param(rng, attr, numeric=False):
     spec = gen_dtspec(rng, numeric=numeric)
-    export = rng.choices([True, False, 'custom'], [0.78, 0.08, 0.14])[0]
+    export = rng.choices([True, False, 'custom'], [0.8, 0.05, 0.15])[0]
     p = {'attr': attr, 'dt': spec, 'readonly': rng.random() < 0.3, 'export': export,
          'has_read': rng.random() < 0.5, 'has_write': rng.random() < 0.7,
          'constant': False, 'default': rng.random() < 0.85, 'limit': None}
@@ -345,7 +345,7 @@ def gen_modspec(rng, name, big):
             nopt = rng.randint(0, len(mem))
             arg = ['struct', [[n, gen_dtspec(rng, depth=2)] for n in mem], mem[len(mem) - nopt:]]
         res = gen_dtspec(rng, depth=2) if rng.random() < 0.5 else None
-        export = rng.choices([True, False, 'custom'], [0.75, 0.15, 0.1])[0]
+        export = rng.choices([True, False, 'custom'], [0.83, 0.07, 0.1])[0]
         if export == 'custom':
             export = custom_pool.pop()
         layers[rng.choice([0, 1])]['commands'].append({'attr': cn, 'arg': arg, 'res': res, 'export': export})
@@ -366,12 +366,14 @@ def gen_modspec(rng, name, big):
             cfg[p['attr']] = {'readonly': not p['readonly']}
         elif r < 0.26 and p['export'] is False:
             cfg[p['attr']] = {'export': True}
-    return {'name': name, 'base': base, 'exported': rng.random() < 0.9, 'layers': layers, 'cfg': cfg}
+    return {'name': name, 'base': base, 'exported': rng.random() < 0.8, 'layers': layers, 'cfg': cfg}
 
 
 def gen_nodespec(rng, big):
     n = rng.choice([1, 1, 2, 2, 3] if big else [1, 1, 2])
-    return {'modules': [gen_modspec(rng, 'm%d' % (i + 1), big) for i in range(n)]}
+    mods = [gen_modspec(rng, 'm%d' % (i + 1), big) for i in range(n)]
+    mods[0]['exported'] = True     # a node whose only module is hidden answers NoSuch... to everything
+    return {'modules': mods}
 
 
 # ----------------------------------------------------------------------------------------
@@ -731,7 +733,7 @@ def guess_wire(rng, attr, exp, kind):
     else:
         right = '_' + attr
     r = rng.random()
-    if r < 0.9:
+    if r < 0.95:
         return right
     return rng.choice([attr, '_' + attr, right + 'x', '__' + attr, right.upper(), ''])
 
@@ -742,24 +744,34 @@ def gen_steps(rng, nodespec, nsteps):
     cmds = [e for e in idx if e[2] == 'command']
     limits = [e for e in params if e[1].rpartition('_')[2] in ('min', 'max', 'limits') and e[3] is not None]
     limited = [e for e in params if any(l[0] == e[0] and l[1].rpartition('_')[0] == e[1] for l in limits)]
+    hidden_mods = {ms['name'] for ms in nodespec['modules'] if not ms['exported']}
+
+    def pick(pool):
+        """mostly accessibles of exported modules (everything of an unexported module is just NoSuch...)"""
+        e = rng.choice(pool)
+        if e[0] in hidden_mods and rng.random() < 0.8:
+            e = rng.choice(pool)
+        return e
     steps = []
     for i in range(nsteps):
         r = rng.random()
         kind = 'change' if r < 0.58 else 'do' if r < 0.78 else 'read'
+        if kind == 'do' and not cmds and rng.random() < 0.85:
+            kind = 'change'
         script = rng.choices([s for s, _ in SCRIPTS[kind]], [w for _, w in SCRIPTS[kind]])[0]
         t = rng.random()
         data = None
         if kind == 'do':
-            if t < 0.7 and cmds:
-                m, a, _, argspec, exp = rng.choice(cmds)
+            if t < 0.86 and cmds:
+                m, a, _, argspec, exp = pick(cmds)
                 spec = '%s:%s' % (m, guess_wire(rng, a, exp, 'command'))
                 c = rng.random()
                 if argspec is None:
                     data = None if c < 0.8 else rng.choice(JUNK)
                 else:
                     data = None if c < 0.12 else gen_payload(rng, argspec)[0]
-            elif t < 0.8 and params:
-                m, a, _, _, exp = rng.choice(params)
+            elif t < 0.91 and params:
+                m, a, _, _, exp = pick(params)
                 spec = '%s:%s' % (m, guess_wire(rng, a, exp, 'param'))
                 data = rng.choice([None, 1])
             else:
@@ -769,16 +781,16 @@ def gen_steps(rng, nodespec, nsteps):
             pool = params
             if kind == 'change' and t < 0.45 and (limits or limited):
                 pool = (limits + limited) or params
-            if t < 0.86 and pool:
-                m, a, _, dtspec, exp = rng.choice(pool)
+            if t < 0.93 and pool:
+                m, a, _, dtspec, exp = pick(pool)
                 wire = guess_wire(rng, a, exp, 'param')
                 spec = '%s:%s' % (m, wire)
                 if a in ('target', 'value') and rng.random() < 0.3:
                     spec = m
                 if kind == 'change':
                     data = gen_payload(rng, dtspec)[0]
-            elif t < 0.92 and cmds:
-                m, a, _, _, exp = rng.choice(cmds)
+            elif t < 0.96 and cmds:
+                m, a, _, _, exp = pick(cmds)
                 spec = '%s:%s' % (m, guess_wire(rng, a, exp, 'command'))
                 data = rng.choice(JUNK) if kind == 'change' else None
             else:
